@@ -57,6 +57,9 @@ def oracle(c, r):
             bad.append({'explicit .txt does not present the saved data': d})
     if r['kernprof_view'] != r['viewer_cli']:
         bad.append({'kernprof --view differs from `python -m line_profiler` on the saved file': [r['kernprof_view'][:400], r['viewer_cli'][:400], r['viewer_cli_err']]})
+    od = r.get('overlapping_dump')
+    if od is not None and not (od['written'] and od['equal']):
+        bad.append({'a dump requested while another dump was being written does not hold the statistics of that moment': od})
     if r['live'] != r['live_reloaded']:
         bad.append({'load(dump(stats)) != stats': [str(r['live'])[:300], str(r['live_reloaded'])[:300]]})
     if r['live_print_stats'] != r['reloaded_show_text']:
@@ -114,9 +117,9 @@ def run(ctx):
                             ctx.broken.append(('K11 correspondence', '%s: model rendering differs from the real %s' % (json.dumps(c), key_text)))
         nontrivial.add(json.dumps(c, sort_keys=True))
     ctx.coverage.update({
-        'evaluations': len(cs) * 8, 'distinct_nontrivial': len(nontrivial),
+        'evaluations': len(cs) * 9, 'distinct_nontrivial': len(nontrivial),
         'rule': 'sessions = 3 script names (ASCII, non-ASCII, with a space) x 6 units (none, 1e-3, 1e-6, 1e-8, 1e-9, 0.5) x skip-zero on/off (sampled in quick); per session '
-                '8 channels: kernprof --view, viewer CLI on the saved file, the viewer on the moved file (source not found), live print_stats, show_text on the reloaded dump, explicit .txt, timestamped .txt, '
+                '8 channels: kernprof --view, viewer CLI on the saved file, the viewer on the moved file (source not found), a dump overlapping another dump in progress, live print_stats, show_text on the reloaded dump, explicit .txt, timestamped .txt, '
                 'viewer -z -t -m on the explicit .lprof (+ stdout summary); every session profiles a called and a never-called function',
         'traces_validated_against_impl': len(cs) * 3 - kdiff, 'correspondence_disagreements': kdiff})
     ctx.coverage['samples'].append({'case': cs[-1], 'kernprof_view_head': (res[-1].get('kernprof_view') or '')[:600], 'loaded': res[-1].get('loaded')})
